@@ -13,6 +13,7 @@ import (
 	"verif/harness/matching"
 	"verif/harness/mergedocs"
 	"verif/harness/nodeheap"
+	"verif/harness/publish"
 	"verif/harness/query"
 	"verif/harness/similarity"
 	"verif/harness/warnings"
@@ -41,7 +42,9 @@ func main() {
 		err = mergedocs.Main(os.Args[2:])
 	case "nodeheap":
 		err = nodeheap.Main(os.Args[2:])
-	case "query":
+	case "publish":
+		err = publish.Main(os.Args[2:])
+case "query":
 		err = query.Main(os.Args[2:])
 	case "similarity":
 		err = similarity.Main(os.Args[2:])
